@@ -44,6 +44,7 @@ import Proofs.FormatCall2Lex
 
 
 import Proofs.FormatPipeParse
+import Proofs.FormatFileLex
 
 namespace Props.C09
 open Martian.Format
@@ -1147,5 +1148,213 @@ theorem pipeline_near_misses :
       .punct 0x28, .punct 0x29, .punct 0x7D]).isNone = true := by decide +kernel
 
 end PipelineDeclarations
+
+/-! ## Whole files (model `Martian.FormatFile`; lemmas `Proofs/FormatFileParse.lean`, `Proofs/FormatFileLex.lean`)
+
+`File` is the Go `Ast` after `NewAst` for a comment-free source: include directives, `UserTypes`,
+`StructTypes`, `Callables.List` (stages and pipelines in source order), `Call`.  `fmtFile` is
+`Ast.format(true)` (what `FormatSrcBytes` returns), `parseFile` is `UncheckedParse`.
+
+COVERED by the theorems: every `File` whose parts are well formed (`wfFile`; every shape of
+parameter list, struct, stage, pipeline and call the earlier sections cover), any number of each
+kind of part; sources with the declarations of the four kinds in ANY order and any white space
+(blank lines) between the pieces, the calls of every pipeline in any order, in the CANONICAL
+SPELLING of the tokens (the spelling the printers of the parts use: `using (local = true,)` for a
+call modifier, `mem_gb`, …).  NOT covered: comments (the modelled fragment has none: `DumpComments`
+writes nothing); non-canonical spellings of tokens and other white space INSIDE a declaration
+(covered by the respelling cases of the harness of the parts, and by the harness of this part on
+the real code); `fixIncludes = true`; the expansion of `@include` (the included files are not
+read by `UncheckedParse`/`FormatSrcBytes` with `fixIncludes = false`); invalid UTF-8 in an include
+path (F6b). -/
+
+section WholeFile
+open Martian.FormatExp Martian.FormatDecl Martian.FormatCall2 Martian.FormatStage Martian.FormatPipe
+open Martian.FormatFile
+open Martian.Lexer (Bytes)
+
+/-- **Round trip, whole file.**  For EVERY well-formed file (any include lines, filetypes, structs,
+stages and pipelines, with or without a top-level call; at least a declaration or the call) the
+reader accepts the printed text and returns the file up to the documented normalisations
+(`normFile`: the calls of every pipeline in `topoSort` order, calls and `return` in normal form;
+everything else exactly). -/
+theorem parse_format_file (f : File) (hw : wfFile f = true) : parseFile (fmtFile f) = some (normFile f) :=
+  parseFile_fmtFile f hw
+
+/-- **Idempotent, whole file.**  Printing what was read gives the same text. -/
+theorem format_file_idem (f : File) (hw : wfFile f = true) : fmtFile (normFile f) = fmtFile f :=
+  fmtFile_norm f hw
+
+/-- the normal form is well formed and a fixed point -/
+theorem normFile_stable (f : File) (hw : wfFile f = true) :
+    wfFile (normFile f) = true ∧ normFile (normFile f) = normFile f :=
+  normFile_stable' f hw
+
+/-- `format ∘ parse ∘ format = format` -/
+theorem format_parse_format_file (f g : File) (hw : wfFile f = true)
+    (hg : parseFile (fmtFile f) = some g) : fmtFile g = fmtFile f := by
+  rw [parse_format_file f hw] at hg
+  injection hg with hg
+  rw [← hg]
+  exact format_file_idem f hw
+
+/-- **The reader accepts the declarations in any order; `NewAst` regroups them.**  A source that
+consists of include lines, well-formed declarations `ds` of the four kinds in ANY order (each in
+the printer's spelling, pipelines with their calls in `topoSort` order) and optionally the call,
+with any white space `w k` after piece number `k`, reads as the normal form of the file which
+`NewAst` builds (`distribute`: all filetypes, all structs, all callables, each group in source
+order). -/
+theorem parse_source_any_order (w : Nat → Bytes) (hws : ∀ k, (w k).all isSp = true)
+    (incs : List Bytes) (ds : List Decl) (call : Option Call2) (hw : wfSource incs ds call = true) :
+    parseFile (fmtSource false w incs ds call) = some (normFile (distribute incs ds call)) :=
+  parseFile_fmtSource_sorted w hws incs ds call hw
+
+/-- **Formatting preserves the program, for every accepted comment-free source in canonical token
+spelling.**  Let the source hold the declarations in any order and the calls of every pipeline in
+any order (`fmtSource true`).  Then (1) the reader accepts it and returns `g`: the distributed
+file with every pipeline's calls where they stand, calls in normal form; (2) the formatter's
+output for it, `fmtFile g`, is the printed form of the distributed file; (3) that output reads as
+the normal form of the distributed file — the same includes, filetypes, structs and stages, the
+same pipelines up to the order of their calls (`normPipeline`), the same call; and (4) formatting
+again changes nothing. -/
+theorem format_preserves_program (w : Nat → Bytes) (hws : ∀ k, (w k).all isSp = true)
+    (incs : List Bytes) (ds : List Decl) (call : Option Call2) (hw : wfSource incs ds call = true) :
+    let g := distribute incs (ds.map readDecl) (call.map normCall2)
+    parseFile (fmtSource true w incs ds call) = some g ∧
+    fmtFile g = fmtFile (distribute incs ds call) ∧
+    parseFile (fmtFile g) = some (normFile (distribute incs ds call)) ∧
+    fmtFile (normFile (distribute incs ds call)) = fmtFile g := by
+  have hwf := wfFile_distribute incs ds call hw
+  have h2 := fmtFile_read incs ds call hw
+  refine ⟨parseFile_fmtSource_raw w hws incs ds call hw, h2, ?_, ?_⟩
+  · rw [h2]; exact parseFile_fmtFile _ hwf
+  · rw [h2]; exact fmtFile_norm _ hwf
+
+/-- a well-formed source distributes to a well-formed file, and the declarations of a file in
+printing order distribute back to it -/
+theorem distribute_facts (incs : List Bytes) (ds : List Decl) (call : Option Call2) (f : File) :
+    (wfSource incs ds call = true → wfFile (distribute incs ds call) = true) ∧
+    distribute f.includes (declsOf f) f.call = f :=
+  ⟨wfFile_distribute incs ds call, distribute_declsOf f⟩
+
+/-- the printed file lexes as `toksFile f`, whatever text follows -/
+theorem lex_format_file (f : File) (rest : Bytes) (hw : wfFile f = true) :
+    lexAll (fmtFile f ++ rest) = (lexAll rest).map (toksFile f ++ ·) :=
+  lexAll_of_lexOK (lexOK_fmtFile f hw) rest
+
+/-- the token-level reader on the tokens of the pieces of a source -/
+theorem read_file (raw : Bool) (incs : List Bytes) (ds : List Decl) (call : Option Call2)
+    (hw : wfSource incs ds call = true) :
+    pFile (toksIncludes incs ++ (toksDecls raw ds ++ toksCallOpt call)) =
+      some (distribute incs (ds.map (readDeclB raw)) (call.map normCall2)) :=
+  pFile_toks raw incs ds call hw
+
+/-- `@include` is one token when a non-word byte (or the end of the input) follows -/
+theorem lex_include (rest : Bytes) (hr : WordEnd rest) :
+    lexAll (sAtInclude ++ rest) = (lexAll rest).map (Tok.reserved sAtInclude :: ·) :=
+  lexOK_atInclude rest hr
+
+/-- ASCII text as bytes (for the examples) -/
+def ascii (s : String) : List UInt8 := s.toList.map fun c => UInt8.ofNat c.toNat
+
+/-- the parts of the example file: `filetype json;`, `filetype tar.gz;`, `struct S(int a "h", …)`,
+`struct T(map<S[]>[] m,)`, the stage `exampleStage` (split, all five resources, retain), the
+pipeline `samplePipeline` (its three calls all move), the call
+`call volatile P(a = 1, * = self,) using (local = true,)` -/
+def sampleDecls : List Decl :=
+  [.struct ⟨[0x53], [⟨⟨[sInt], 0, 0⟩, [0x61], [0x68], []⟩, ⟨⟨[[0x6A, 0x73, 0x6F, 0x6E]], 1, 0⟩, [0x62], [], [0x6F]⟩]⟩,
+   .pipeline samplePipeline,
+   .filetype ⟨[[0x6A, 0x73, 0x6F, 0x6E]]⟩,
+   .stage exampleStage,
+   .struct ⟨[0x54], [⟨⟨[[0x53]], 1, 2⟩, [0x6D], [], []⟩]⟩,
+   .filetype ⟨[[0x74, 0x61, 0x72], [0x67, 0x7A]]⟩]
+
+def sampleCall : Call2 :=
+  ⟨[0x50], [0x50], [⟨[0x61], false, .int 1⟩], some (.ref true [] []),
+    ⟨false, false, true, [(sLocal, .bool true)]⟩⟩
+
+def sampleIncs : List Bytes := [ascii "dir/a.mro"]
+
+def sampleFile : File := distribute sampleIncs sampleDecls (some sampleCall)
+
+/-- non-vacuity: a well-formed file with every kind of part (an include, two filetypes, two
+structs, a split stage with resources and retain, a pipeline whose three calls get reordered, a
+top-level call with a keyword modifier and a `using` block).  Its declarations stand in the
+source in the order struct, pipeline, filetype, stage, struct, filetype, separated by blank
+lines; the reader regroups them (2 filetypes, 2 structs, 2 callables with the pipeline first);
+the source text differs from the formatted text; formatting what was read from the source gives
+`fmtFile sampleFile`; the formatted text reads back as a file that prints to the same text and
+has the tokens of the normal form (the calls of the pipeline are reordered); the blank lines of `Ast.format` are where the Go code puts them
+(the head of the text is shown). -/
+example :
+    wfSource sampleIncs sampleDecls (some sampleCall) = true ∧ wfFile sampleFile = true ∧
+    (sampleFile.filetypes.length, sampleFile.structs.length, sampleFile.callables.length) = (2, 2, 2) ∧
+    (parseFile (fmtSource true (fun _ => [0x0A]) sampleIncs sampleDecls (some sampleCall))).map fmtFile =
+      some (fmtFile sampleFile) ∧
+    fmtSource true (fun _ => [0x0A]) sampleIncs sampleDecls (some sampleCall) ≠ fmtFile sampleFile ∧
+    (parseFile (fmtFile sampleFile)).map (fun g => (fmtFile g, toksFile g)) =
+      some (fmtFile sampleFile, toksFile (normFile sampleFile)) ∧
+    toksDecls true (declsOf sampleFile) ≠ toksDecls false (declsOf sampleFile) ∧
+    (fmtFile sampleFile).take 81 =
+      ascii "@include \"dir/a.mro\"\n\nfiletype json;\nfiletype tar.gz;\n\nstruct S(\n    int    a \"h\"" := by
+  set_option maxRecDepth 100000 in decide +kernel
+
+/-- the blank lines of `Ast.format`, case by case: nothing before the first block whatever it is;
+one blank line between blocks; filetypes on consecutive lines; a blank line between structs and
+between callables; a blank line before the call iff anything precedes it. -/
+example :
+    let ft (n : String) : Filetype := ⟨[ascii n]⟩
+    let st (n : String) : Struct := ⟨ascii n, [⟨⟨[sInt], 0, 0⟩, [0x78], [], []⟩]⟩
+    let pl (n : String) : Callable := .pipeline ⟨ascii n, [], [], ⟨[], ⟨[], none⟩, none⟩⟩
+    let cl : Call2 := ⟨[0x50], [0x50], [], none, noMods⟩
+    fmtFile ⟨[], [ft "a", ft "b"], [], [], none⟩ = ascii "filetype a;\nfiletype b;\n" ∧
+    fmtFile ⟨[ascii "i", ascii "j"], [ft "a"], [], [], none⟩ =
+      ascii "@include \"i\"\n@include \"j\"\n\nfiletype a;\n" ∧
+    fmtFile ⟨[], [], [st "S", st "T"], [], none⟩ = ascii "struct S(\n    int x,\n)\n\nstruct T(\n    int x,\n)\n" ∧
+    fmtFile ⟨[ascii "i"], [], [st "S"], [], none⟩ = ascii "@include \"i\"\n\nstruct S(\n    int x,\n)\n" ∧
+    fmtFile ⟨[], [ft "a"], [st "S"], [], some cl⟩ =
+      ascii "filetype a;\n\nstruct S(\n    int x,\n)\n\ncall P()\n" ∧
+    fmtFile ⟨[], [], [], [pl "P", pl "Q"], some cl⟩ =
+      ascii "pipeline P(\n)\n{\n    return (\n    )\n}\n\npipeline Q(\n)\n{\n    return (\n    )\n}\n\ncall P()\n" ∧
+    fmtFile ⟨[], [ft "a"], [], [pl "P"], none⟩ =
+      ascii "filetype a;\n\npipeline P(\n)\n{\n    return (\n    )\n}\n" ∧
+    fmtFile ⟨[], [], [], [], some cl⟩ = ascii "call P()\n" ∧
+    fmtFile ⟨[ascii "i"], [], [], [], some cl⟩ = ascii "@include \"i\"\n\ncall P()\n" := by
+  set_option maxRecDepth 100000 in decide +kernel
+
+/-- Negative witnesses.  (1) the empty file and a file of white space are rejected (`file` has no
+empty alternative), and the file without parts — which prints as the empty text — is outside
+`wfFile`; (2) so is a file that consists of `@include` lines only (no alternative `includes`
+alone); (3) a file that is only a value expression is not a file although `ParseValExp` reads it
+(the `val_exp` alternative sets `exp`, `yaccParse` then returns an error); (4) declarations after
+the top-level call are rejected, and so is a second call; (5) `@include` after a declaration is
+rejected; (6) `@include` must be followed by a string; `@includex` and a lone `@` are not tokens;
+`@include"a"` (no space) is fine; (7) accepted: a call alone; includes and a call; a declaration
+and a call; `filetype` and `struct` are not reserved: `struct filetype(int struct,)` is a struct. -/
+theorem file_near_misses :
+    parseFile [] = none ∧ parseFile (ascii "\n \n") = none ∧
+    fmtFile ⟨[], [], [], [], none⟩ = [] ∧ wfFile ⟨[], [], [], [], none⟩ = false ∧
+    parseFile (ascii "@include \"a.mro\"\n") = none ∧ wfFile ⟨[ascii "a.mro"], [], [], [], none⟩ = false ∧
+    parseFile (ascii "[1]") = none ∧ (parseValExp (ascii "[1]")).isSome = true ∧
+    parseFile (ascii "1\n") = none ∧ parseFile (ascii "@include \"a\"\n[1]") = none ∧
+    parseFile (ascii "call A()\nfiletype a;\n") = none ∧
+    (parseFile (ascii "filetype a;\ncall A()\n")).isSome = true ∧
+    parseFile (ascii "call A()\ncall B()\n") = none ∧
+    parseFile (ascii "filetype a;\n@include \"a\"\n") = none ∧
+    (parseFile (ascii "@include \"a\"\nfiletype a;\n")).isSome = true ∧
+    parseFile (ascii "@include\nfiletype a;\n") = none ∧
+    parseFile (ascii "@include a\nfiletype a;\n") = none ∧
+    lexAll (ascii "@includex \"a\"\nfiletype a;\n") = none ∧ lexAll (ascii "@ include") = none ∧
+    lexAll (ascii "@include_") = none ∧ lexAll (ascii "@includ") = none ∧
+    lexAll (ascii "@include") = some [.reserved sAtInclude] ∧
+    (parseFile (ascii "@include\"a\"filetype a;")).map (·.includes) = some [ascii "a"] ∧
+    (parseFile (ascii "call A()\n")).isSome = true ∧
+    (parseFile (ascii "@include \"a\"\n@include \"b\"\ncall A()\n")).map (·.includes.length) = some 2 ∧
+    (parseFile (ascii "struct filetype(int struct,)")).map (·.structs) =
+      some [⟨sFiletype, [⟨⟨[sInt], 0, 0⟩, sStruct, [], []⟩]⟩] ∧
+    parseFile (ascii "filetype a\nfiletype b;") = none ∧ parseFile (ascii "filetype;") = none ∧
+    parseFile (ascii "struct S()") = none := by
+  set_option maxRecDepth 100000 in decide +kernel
+
+end WholeFile
 
 end Props.C09
